@@ -466,7 +466,7 @@ func TestCheck(t *testing.T) {
 	sched.Main(t, sched.Check{
 		ID:    "C08",
 		Level: "model_checking",
-		Rule: "history = one behaviour per request over {reply now, never, late: released after the timed-out call / emitted before the next reply / emitted after the next reply; plus reply variants: rpc-error chunked inside its message-id, data mentioning a subscription-id, data with CR LF, data lines ending in "##" (every single cut); plus a request whose return write fails once}, all histories up to the length bound x {echo on, off} x {1.0, 1.1} x read presets {whole message, 1 byte, 7 bytes} (+ replies of 1.1 kB with every single cut); a read never spans two server messages; " +
+		Rule: "history = one behaviour per request over {reply now, never, late: released after the timed-out call / emitted before the next reply / emitted after the next reply; plus reply variants: rpc-error chunked inside its message-id, data mentioning a subscription-id, data with CR LF, data lines ending in ## (every single cut); plus a request whose return write fails once}, all histories up to the length bound x {echo on, off} x {1.0, 1.1} x read presets {whole message, 1 byte, 7 bytes} (+ replies of 1.1 kB with every single cut); a read never spans two server messages; " +
 			"per scenario all executions within the deviation bound (extra cuts/holds; thread switches among channel reader, NETCONF reader, RPC poller, caller); oracle = message-id bookkeeping against the server model's request log",
 		Assumptions: []string{"the server model echoes (when echo is on) every byte before answering", "timeouts 6.5x read delay; late replies are released at three phases relative to the next request"},
 		Scenarios:   scenarios,
